@@ -831,24 +831,9 @@ func (p Patch) add(doc *container, op Operation, options *ApplyOptions) error {
 
 	// special case, adding to empty means replacing the container with the value given
 	if path == "" {
-		val := op.value()
-
-		var pd container
-		if (*val.raw)[0] == '[' {
-			pd = &partialArray{
-				self: val,
-			}
-		} else {
-			pd = &partialDoc{
-				self: val,
-				opts: options,
-			}
-		}
-
-		err := json.UnmarshalValid(*val.raw, pd)
-
+		pd, err := rootContainer(op.value(), options)
 		if err != nil {
-			return err
+			return fmt.Errorf("add operation does not apply: %w", err)
 		}
 
 		*doc = pd
@@ -1035,6 +1020,36 @@ func (p Patch) remove(doc *container, op Operation, options *ApplyOptions) error
 	return nil
 }
 
+// rootContainer parses a value that is to be the whole document. An object
+// and an array are held as their containers. null is held as the nil array,
+// whichever way it gets there: it is written out as null, a test sees it as
+// null, and every operation below the root reports that there is no
+// container.
+func rootContainer(val *lazyNode, options *ApplyOptions) (container, error) {
+	if val.which == eRaw {
+		if !val.tryDoc() {
+			if !val.tryAry() {
+				return nil, fmt.Errorf("value must be object or array: %w", ErrInvalid)
+			}
+		} else {
+			val.doc.opts = options
+		}
+	}
+
+	switch val.which {
+	case eAry:
+		if val.ary != nil {
+			val.ary.self = val
+		}
+		return val.ary, nil
+	case eDoc:
+		val.doc.self = val
+		return val.doc, nil
+	}
+
+	return nil, fmt.Errorf("value must be object or array: %w", ErrInvalid)
+}
+
 func (p Patch) replace(doc *container, op Operation, options *ApplyOptions) error {
 	path, err := op.Path()
 	if err != nil {
@@ -1042,30 +1057,12 @@ func (p Patch) replace(doc *container, op Operation, options *ApplyOptions) erro
 	}
 
 	if path == "" {
-		val := op.value()
-
-		if val.which == eRaw {
-			if !val.tryDoc() {
-				if !val.tryAry() {
-					return fmt.Errorf("replace operation value must be object or array: %w", err)
-				}
-			} else {
-				val.doc.opts = options
-			}
+		pd, err := rootContainer(op.value(), options)
+		if err != nil {
+			return fmt.Errorf("replace operation does not apply: %w", err)
 		}
 
-		switch val.which {
-		case eAry:
-			if val.ary != nil {
-				val.ary.self = val
-			}
-			*doc = val.ary
-		case eDoc:
-			val.doc.self = val
-			*doc = val.doc
-		case eRaw:
-			return fmt.Errorf("replace operation hit impossible case: %w", err)
-		}
+		*doc = pd
 
 		return nil
 	}
@@ -1302,21 +1299,8 @@ func (p Patch) ApplyIndentWithOptions(doc []byte, indent string, options *ApplyO
 	}
 
 	raw := json.RawMessage(doc)
-	self := newLazyNode(&raw)
 
-	var pd container
-	if isArray(doc) {
-		pd = &partialArray{
-			self: self,
-		}
-	} else {
-		pd = &partialDoc{
-			self: self,
-			opts: options,
-		}
-	}
-
-	err := unmarshal(doc, pd)
+	pd, err := rootContainer(newLazyNode(&raw), options)
 
 	if err != nil {
 		return nil, err
